@@ -472,13 +472,20 @@ def run():
     for why, cnt in hook_missing.items():
         ck.violation("%s: %d trace(s) could not be replayed -- the Lowerer machine was NOT compared with the code" % (why, cnt), {"reason": why, "programs": cnt}, no_input=True)
     trace_ok = 0
+    have_lookups = any(c16_trace.has_lookup_hook(c[4]["ops"]) for c in cases)
+    if cases and not have_lookups:
+        ck.violation("no `lookup_in` / `lookup_all` event in %d traces (hooks/lookup-cid.diff is not in this tree): the reads of node_mapping were NOT compared "
+                     "with lookup_cid_m, and where out-of-scope ids enter was not established" % len(cases), {"traces": len(cases)}, no_input=True)
+    else:
+        ck.coverage["lookup_reads_compared"] = sum(c[1].count("(BLookup ") + c[1].count("(BLookupAll ") for c in cases)
     if coq_ok:
         try:
             # both verdicts of one trace in one expression (the term is parsed once).  The frames of OEndTable / OEndInline are
             # computed by the machine from the lineage (push_select_m) and compared with what push_select returned (BFrame)
-            both = coq_eval(c16_trace.COQ_HEADER, ["(let l := %s in let q := %s in (replay_l_verdict false l q, replay_l_verdict true l q))" % (t, qc) for _, t, qc, _, _ in cases]) if cases else []
+            both = coq_eval(c16_trace.COQ_HEADER, ["(let l := %s in let q := %s in (replay_l_verdict false l q, replay_l_verdict true l q, first_out_of_scope_read init l 0))" % (t, qc) for _, t, qc, _, _ in cases]) if cases else []
             vals = [b[0] if isinstance(b, tuple) else None for b in both]
             strict = dict((c[0], b[1]) for c, b in zip(cases, both) if isinstance(b, tuple))
+            entry = dict((c[0], b[2]) for c, b in zip(cases, both) if isinstance(b, tuple))
         except RuntimeError as ex:
             vals = None
             ck.coverage["trace_eval_error"] = str(ex)[-600:]
@@ -509,6 +516,21 @@ def run():
                 kinds = c16_trace.op_kinds(a["ops"])
                 k = kinds[sv - 1] if isinstance(sv, int) and 0 < sv <= len(kinds) else "?"
                 ck.stat("strict-machine", "refused = not rq_wf (known finding), refused operation: " + k)
+                # where the out-of-scope id entered: a read of lookup_cid or a declare answered from node_mapping whose result was
+                # not visible at that moment.  Every refusal must be preceded by such an entry (ids reach expressions in no other way)
+                en = entry.get(p)
+                if isinstance(en, tuple) and en[0] == "Some":
+                    at, (node, nm) = en[1]
+                    ek = kinds[at] if isinstance(at, int) and at < len(kinds) else "?"
+                    ck.stat("strict-machine", "out-of-scope id entered through: " + ("a lookup_cid read" if nm != "None" or not ek.startswith("ODeclare") else ek))
+                    if isinstance(at, int) and isinstance(sv, int) and at > sv - 1:
+                        ck.stat("strict-machine", "ENTRY-AFTER-REFUSAL")
+                        ck.violation("the strict machine refuses operation %d although no out-of-scope id had entered an expression before it (first such entry: operation %d)" % (sv - 1, at),
+                                     {"program": p, "strict_verdict": sv, "entry": str(en)})
+                elif have_lookups:
+                    ck.stat("strict-machine", "NO-ENTRY")
+                    ck.violation("the strict machine refuses operation %d but every lookup_cid read and every cached declare of the trace returned a visible id: "
+                                 "an id reached an expression some other way" % (sv - 1), {"program": p, "strict_verdict": sv})
             else:
                 ck.stat("strict-machine", "MISMATCH")
                 ck.violation("the strict Lowerer machine (Model/LowererVis.v) and rq_diags disagree on one program: strict verdict %s, diagnostics %s" % (sv, d[:3]),
@@ -569,6 +591,12 @@ def run():
                 order_ok = lowered == expect[:len(lowered)] and ("ok" not in a or len(lowered) == len(expect))
                 ck.stat("toposort-tables", "agrees" if ok and order_ok else "DISAGREES")
                 ck.stat("toposort-tables", "tables=%d" % min(len(order), 6))
+                if "ok" in a:
+                    bad = c16_trace.deps_vs_refs(a["ops"], t)
+                    ck.stat("toposort-tables", "TableDepsCollector = tables instantiated" if not bad else "DEPS-DIFFER-FROM-REFERENCES")
+                    if bad:
+                        ck.violation("the dependencies toposort_tables was given (TableDepsCollector) are not the declared tables the lowering of that table instantiates: %s" % (bad[:2],),
+                                     {"program": p, "differences": bad[:5]})
                 if not ok:
                     ck.violation("utils/toposort.rs and the toposort model (Model/Lowerer.v) disagree", {"program": p, "event": t, "model": str(v)})
                 elif not order_ok:
